@@ -5,6 +5,8 @@ import AdfObdd.IsoCheck
 import AdfObdd.Rebuild
 import AdfObdd.AdfPipeline
 import AdfObdd.CliModel
+import AdfObdd.FromParser
+import AdfObdd.BioModel
 /-! protocol handler of the ADF family: native-store pipelines are run on the proved store model
     (`=` answers, handle for handle); every answer is also rendered canonically and compared with
     the brute-force specification `Spec` (`~` answers). -/
@@ -102,17 +104,22 @@ def showSetC (ws : List Spec.I3) : String :=
   let xs := Spec.sortStrings (ws.map Spec.showI3)
   if xs.isEmpty then "-" else joinWith "," xs
 
+/-- the work list of `from_parser` (`FromParser.workList`) for one presentation: the entries `k ≥ n`
+of `perm` are the conditions in file order; condition `k - n` belongs to the statement at variable
+position `inv (k - n)` and is written over the renumbered atoms -/
+def presentedItems (a : AdfSt) (perm : List Nat) (inv : Nat → Nat) : List (Nat × Fm) :=
+  perm.filterMap (fun k =>
+    if k < a.n then none else
+    let j := k - a.n
+    some (inv j, renameFm inv (a.fms.getD j Fm.bot)))
+
 /-- one presentation: facts in `perm` order, statement `order[k]` at variable position `k` -/
 def presented (a : AdfSt) (perm order : List Nat) : String × String :=
   let n := a.n
   let inv := fun (i : Nat) => (order.idxOf i)
   let s0 := buildVars n Store.init
   -- `from_parser` compiles the conditions in file order and stores each at its statement's position
-  let r := perm.foldl (fun (acc : Store × List Nat) k =>
-      if k < n then acc else
-      let j := k - n
-      let c := compile acc.1 (renameFm inv (a.fms.getD j Fm.bot))
-      (c.1, acc.2.set (inv j) c.2)) (s0, List.replicate n 0)
+  let r := FromParser.placeCompile s0 (List.replicate n 0) (presentedItems a perm inv)
   let g := groundedLoop StoreRA (n + 1) r.1 r.2
   let c := completeAll g.1 n r.2
   let st := stableAll c.1 n r.2
@@ -144,11 +151,7 @@ def cliRun (a : AdfSt) (mode flags heu : String) (perm order : List Nat) : Strin
   let n := a.n
   let inv := fun (i : Nat) => order.idxOf i
   let s0 := buildVars n Store.init
-  let r := perm.foldl (fun (acc : Store × List Nat) k =>
-      if k < n then acc else
-      let j := k - n
-      let c := compile acc.1 (renameFm inv (a.fms.getD j Fm.bot))
-      (c.1, acc.2.set (inv j) c.2)) (s0, List.replicate n 0)
+  let r := FromParser.placeCompile s0 (List.replicate n 0) (presentedItems a perm inv)
   let h := match parseHeu heu with | some (some h) => h | _ => SM.Heu.simple
   let m := parseMode mode
   let f := parseFlags flags
@@ -287,9 +290,22 @@ def adfStep (a : AdfSt) (l : String) (ws : List String) : Option (List String ×
       let tts := a.tts
       let spec := specAnswer what a.n tts
       if p == "bio" || what == "stablerew" || what == "stablerew2" then
-        -- semantic model: the same algorithm on a scratch native store, rendered as T/F/u
-        let nat := buildNative a.n a.fms.toList
         let w := if what == "stablerew" || what == "stablerew2" then "stable" else what
+        -- up to 7 statements: the model of the biodivine back-end's OWN algorithms (`BioModel`, proved
+        -- exact in C02/C03) on the truth-table instance of the assumed library; the prepared
+        -- rewriting (`stablerew2`) denotes the same function on well-formed frameworks
+        let bio : Option (List (List Nat)) :=
+          if a.n ≤ 7 && p == "bio" then
+            (Bio.runTT (if what == "stablerew2" then "stablerew" else what) a.n tts).map
+              (fun vs => vs.map (fun v => v.map (fun x => match x with | some true => 1 | some false => 0 | none => 2)))
+          else none
+        match bio with
+        | some vs =>
+          let eq := if w == what then showSeq vs else showSetV vs
+          some ([l, s!"= {eq}", s!"~ {spec}"], a)
+        | none =>
+        -- larger frameworks and the native rewriting variant: the same algorithm on a scratch native store
+        let nat := buildNative a.n a.fms.toList
         match runSem w nat.1 a.n nat.2 with
         | some (_, vs) =>
           let eq := if w == what then showSeq vs else showSetV vs
